@@ -70,7 +70,7 @@ def registry():
                 '_solve_non_UTPM_A', '_solve_non_UTPM_x', '_iouter', '_diag']
     PB_DIMS = ['_dot_pullback', '_outer_pullback', '_inv_pullback', '_solve_pullback', '_qr_rectangular_pullback', '_qr_pullback', '_qr_full_pullback', '_diag_pullback']
     reg['C03'] = dict(
-        rules=[T.rule_pb_sig, T.rule_pb_acc, T.rule_pb_out, T.rule_pb_view, T.rule_pb_ro, T.rule_pb_complete, T.rule_pb_pair, T.rule_setitem_copy, T.rule_pb_setitem_clear, T.rule_pb_rebind, T.rule_pb_dead, S.rule_const_all_coeffs, T.rule_pb_threshold, T.rule_pb_propagate, T.rule_pb_each, T.rule_pb_kernel_out, S.rule_int_index, DM.rule_dims_kernels(PB_DIMS, 'C03.dims', 120), DM.rule_dims_wrappers(['pb_dot', 'pb_outer', 'pb_solve', 'pb_inv', 'pb_qr', 'pb_qr_full', 'pb_trace', 'pb_svd'], 'C03.dims-wrap', 60)] + ([G.rule_pb_grade('C03')] if G is not None else []),
+        rules=[T.rule_pb_sig, T.rule_pb_acc, T.rule_pb_out, T.rule_pb_view, T.rule_pb_ro, T.rule_pb_complete, T.rule_pb_pair, T.rule_setitem_copy, T.rule_pb_setitem_clear, T.rule_pb_rebind, T.rule_pb_dead, S.rule_const_all_coeffs, T.rule_pb_threshold, T.rule_pb_propagate, T.rule_pb_each, T.rule_pb_kernel_out, S.rule_int_index, DM.rule_dims_kernels(PB_DIMS, 'C03.dims', 120), DM.rule_dims_wrappers(['pb_dot', 'pb_outer', 'pb_solve', 'pb_inv', 'pb_qr', 'pb_qr_full', 'pb_trace', 'pb_svd', 'pb_diag'], 'C03.dims-wrap', 60)] + ([G.rule_pb_grade('C03')] if G is not None else []),
         explanation='Static decision of the tracer<->pullback calling protocol every traced program depends on. '
                     'Decides: existence/arity/keyword/permutation agreement between each recorder site and UTPM.pb_<name> '
                     '(R-pb-sig); accumulate-never-overwrite into adjoint storage (R-pb-acc, via the E1 alias/effect analysis '
